@@ -13,6 +13,7 @@ import NemoVerif.Lemmas.LifetimeCount
 import NemoVerif.Lemmas.LifetimeV
 import NemoVerif.Lemmas.LifetimeVEq
 import NemoVerif.Lemmas.LifetimeVInv
+import NemoVerif.Lemmas.LifetimeCoreVM9
 namespace NemoVerif.C06
 open NemoVerif.Lifetime
 
@@ -1253,5 +1254,146 @@ theorem abort_descendants_stopped (n : Nat) (s : State) (u : Nat) (d : Bool) (s'
       exact hns0 hst
     intro c hc
     exact descendants_of_ended s' hi'.dc hns' u f' hf' hl' c hc
+
+/-! ## T3 refinement `CoreVM → Lifetime` (function by function; lemmas in `Lemmas/LifetimeCoreVM*.lean`)
+
+  `Refine.absVM ν φ : CoreVM.VM → Lifetime.State` for injective numberings `ν` (uids, scope names) and `φ` (flow ids); status and
+  head count of an instance come from the index component; queue and outgoing events are NOT abstracted (`Refine.cs` forgets
+  them).  `Refine.WF` : action table keyed by uid, index instances = instance table, well-behaved `Stop…` names, `activated ≥ 0`.
+  Every theorem is about NORMALLY terminating CoreVM runs (`= .ok …`).  The statements about `slideStep` and
+  `processInternalEvent` are about those CoreVM functions themselves (the branch is isolated by unfolding them). -/
+
+section T3
+variable (ν φ : String → Nat)
+
+/-- `CoreVM.abortFlow` IS `Lifetime.abortFlow` on the abstraction: same fuel, all nested calls, every hierarchy -/
+theorem corevm_abort_is_op (hν : Function.Injective ν) (hφ : Function.Injective φ) (n : Nat) (vm : CoreVM.VM) (f : CoreIndex.FUid)
+    (sc : List CoreVM.Score) (d : Bool) (vm' : CoreVM.VM) (hw : Refine.WF vm) (h : CoreVM.abortFlow n f sc d vm = .ok () vm') :
+    ∃ t, Lifetime.abortFlow n (Refine.absVM ν φ vm) (ν f) d = .ok t ∧ Refine.absVM ν φ vm' = Refine.cs t ∧ Refine.WF vm' :=
+  Refine.corevm_abort_is_op ν φ hν hφ n vm f sc d vm' hw h
+
+-- non-vacuity: injective numberings exist; a well-formed state on which the call returns normally
+example : Function.Injective Refine.enc := Refine.enc_inj
+example : Refine.WF Refine.vmEx := Refine.vmEx_wf
+example : (match CoreVM.abortFlow 3 "a" [] false Refine.vmEx with | .ok _ _ => true | .error _ _ => false) = true := Refine.vmEx_abort_ok
+
+/-- `CoreVM.finishFlow` IS `Lifetime.finishFlow`; `LogInvisible`: `_log_action_or_intents` only pushes log events
+    (`Refine.logInvisible_of_noMeta`: true for flows without `@meta` tags) -/
+theorem corevm_finish_is_op (hν : Function.Injective ν) (hφ : Function.Injective φ) (n : Nat) (vm : CoreVM.VM) (f : CoreIndex.FUid)
+    (sc : List CoreVM.Score) (d : Bool) (vm' : CoreVM.VM) (hlog : Refine.LogInvisible n f sc) (hw : Refine.WF vm)
+    (h : CoreVM.finishFlow n f sc d vm = .ok () vm') :
+    ∃ t, Lifetime.finishFlow n (Refine.absVM ν φ vm) (ν f) d = .ok t ∧ Refine.absVM ν φ vm' = Refine.cs t ∧ Refine.WF vm' :=
+  Refine.corevm_finish_is_op ν φ hν hφ n vm f sc d vm' hlog hw h
+
+-- non-vacuity of `LogInvisible`: it follows from a condition on the flow configs
+example (fuel : Nat) (f : CoreIndex.FUid) (sc : List CoreVM.Score)
+    (hmeta : ∀ vm cfg vm', CoreVM.cfgOfInst f vm = .ok cfg vm' → cfg.metaTags = []) : Refine.LogInvisible fuel f sc :=
+  Refine.logInvisible_of_noMeta fuel f sc hmeta
+
+/-- the `EndScope` element of `slide` IS `Lifetime.endScope` (stated on `CoreVM.slideStep`); the scope dict has unique keys (a Python
+    dict); `NameRO`: evaluating the event name of the next element leaves index, instance table and action table alone -/
+theorem corevm_endscope_is_op (hν : Function.Injective ν) (hφ : Function.Injective φ) (fuel : Nat) (f : CoreIndex.FUid) (h : CoreIndex.HUid)
+    (vm vm' : CoreVM.VM) (cfg : CoreVM.FlowCfg) (hd : CoreIndex.Head) (name : String) (r : Bool × List CoreIndex.Key)
+    (hcfg : CoreVM.cfgOfInst f vm = .ok cfg vm) (hhd : CoreVM.getHead? (f, h) vm = .ok (some hd) vm)
+    (hpos : ¬ (hd.pos ≥ cfg.elements.size ∨ hd.status = .inactive))
+    (hel : cfg.elements[hd.pos]! = .endScope name) (hw : Refine.WF vm)
+    (hsn : ∀ x, OMap.lookup f vm.r.fx = some x → (x.scopes.map (·.1)).Nodup)
+    (hro : Refine.NameRO f (hd.pos + 1))
+    (hrun : CoreVM.slideStep fuel f h vm = .ok r vm') :
+    r = (false, []) ∧ ∃ t, Lifetime.endScope fuel (Refine.absVM ν φ vm) (ν f) (ν name) = .ok t ∧
+      Refine.absVM ν φ vm' = Refine.cs t ∧ Refine.WF vm' :=
+  Refine.corevm_slideStep_endScope_is_op ν φ hν hφ fuel f h vm vm' cfg hd name r hcfg hhd hpos hel hw hsn hro hrun
+
+-- non-vacuity: a well-formed state whose head stands on an `EndScope` element, unique scope names, `slideStep` returns normally;
+-- `NameRO` follows from a condition on the flow configs when the next element is not a `match`
+example : Refine.WF Refine.vmEx5 := Refine.vmEx5_wf
+example : CoreVM.cfgOfInst "a" Refine.vmEx5 = .ok Refine.cfgEx5 Refine.vmEx5 := Refine.vmEx5_cfg
+example : ∀ x, OMap.lookup "a" Refine.vmEx5.r.fx = some x → (x.scopes.map (·.1)).Nodup := Refine.vmEx5_nodup
+example : (match CoreVM.slideStep 3 "a" "h" Refine.vmEx5 with | .ok r _ => r == (false, []) | .error _ _ => false) = true :=
+  Refine.vmEx5_slide_ok
+example (f : CoreIndex.FUid) (p : Nat)
+    (hnm : ∀ vm cfg vm', CoreVM.cfgOfInst f vm = .ok cfg vm' → ∀ spec b, CoreVM.elemAt cfg p ≠ some (.matchOp spec b)) : Refine.NameRO f p :=
+  Refine.nameRO_of_not_match f p hnm
+
+/-- processing `StopFlow(flow_instance_uid=u)` IS the inactive test followed by `Lifetime.abortFlow … (activated > 0)`
+    (stated on `CoreVM.processInternalEvent`) -/
+theorem corevm_stopflow_event_is_op (hν : Function.Injective ν) (hφ : Function.Injective φ) (fuel : Nat) (event : CoreVM.Event)
+    (vm vm' : CoreVM.VM) (uid : String) (r : CoreVM.Event × List String)
+    (hname : event.ev.name = "StopFlow") (huid : CoreVM.lookupArg "flow_instance_uid" event.ev.args = some (.str uid)) (hw : Refine.WF vm)
+    (hrun : CoreVM.processInternalEvent fuel event vm = .ok r vm') :
+    r.1 = event ∧ ∃ t, Refine.stopEventOp fuel (Refine.absVM ν φ vm) (ν uid) false = .ok t ∧
+      Refine.absVM ν φ vm' = Refine.cs t ∧ Refine.WF vm' :=
+  Refine.corevm_stopflow_event_is_op ν φ hν hφ fuel event vm vm' uid r hname huid hw hrun
+
+/-- processing `FinishFlow(flow_instance_uid=u)` IS the inactive test followed by `Lifetime.finishFlow … false` -/
+theorem corevm_finishflow_event_is_op (hν : Function.Injective ν) (hφ : Function.Injective φ) (fuel : Nat) (event : CoreVM.Event)
+    (vm vm' : CoreVM.VM) (uid : String) (r : CoreVM.Event × List String)
+    (hname : event.ev.name = "FinishFlow") (huid : CoreVM.lookupArg "flow_instance_uid" event.ev.args = some (.str uid)) (hw : Refine.WF vm)
+    (hlog : Refine.LogInvisible fuel uid event.scores)
+    (hrun : CoreVM.processInternalEvent fuel event vm = .ok r vm') :
+    r.1 = event ∧ ∃ t, Refine.stopEventOp fuel (Refine.absVM ν φ vm) (ν uid) true = .ok t ∧
+      Refine.absVM ν φ vm' = Refine.cs t ∧ Refine.WF vm' :=
+  Refine.corevm_finishflow_event_is_op ν φ hν hφ fuel event vm vm' uid r hname huid hw hlog hrun
+
+/-- processing a `StartFlow` of a known flow that does NOT create an instance (dropped because the sender ended / was deactivated,
+    or re-activation of an activated reference instance) IS `Lifetime.processStartFlow` with a result other than `create`;
+    `RefAgree`: the reference-instance lookup (with its parameter comparison) agrees with `getRefActivated` under the oracle table
+    `pm` — NOT refined -/
+theorem corevm_startflow_nocreate_is_op (hν : Function.Injective ν) (hφ : Function.Injective φ) (fuel : Nat) (event : CoreVM.Event)
+    (vm vm' : CoreVM.VM) (flowId src : String) (r : CoreVM.Event × List String) (pm : Nat → Bool)
+    (hname : event.ev.name = "StartFlow")
+    (hfid : CoreVM.lookupArg "flow_id" event.ev.args = some (.str flowId))
+    (hsrc : CoreVM.lookupArg "source_flow_instance_uid" event.ev.args = some (.str src))
+    (hknown : ((vm.r.prog.find flowId).isSome && decide (flowId ≠ "main")) = true)
+    (hw : Refine.WF vm) (href : Refine.RefAgree ν φ vm flowId event.ev.args pm)
+    (hrun : CoreVM.processInternalEvent fuel event vm = .ok r vm') (hr : r.2 ≠ []) :
+    ∃ t res, processStartFlow (Refine.absVM ν φ vm) (φ flowId) true (Refine.actArg event.ev.args)
+        (OMap.lookup flowId vm.r.idStates).isSome (ν src) pm = .ok (t, res) ∧ (∀ c, res ≠ .create c) ∧
+      Refine.absVM ν φ vm' = Refine.cs t ∧ Refine.WF vm' :=
+  Refine.corevm_startflow_nocreate_is_op ν φ hν hφ fuel event vm vm' flowId src r pm hname hfid hsrc hknown hw href hrun hr
+
+-- non-vacuity of `RefAgree`: it holds (empty oracle table) when no instance of the flow is registered
+example (vm : CoreVM.VM) (flowId : String) (args : List (String × Val))
+    (hid : (OMap.lookup flowId vm.r.idStates).getD [] = []) : Refine.RefAgree ν φ vm flowId args (fun _ => false) :=
+  Refine.refAgree_of_no_inst ν φ vm flowId args hid
+
+/-- every refined CoreVM step (`Refine.RefinedStep`: outermost `abortFlow` / `finishFlow`; the `EndScope`, `BeginScope`,
+    `start_new_flow_instance`-label and effect-free elements of `slideStep`; `StopFlow` / `FinishFlow(flow_instance_uid=…)` and
+    non-creating `StartFlow` processing) IS at most one operation of the Lifetime machine (`abort`, `finish`, `endScope`, `label`,
+    `reactivate`, `frame`) on the abstraction -/
+theorem corevm_refined_step_is_op (hν : Function.Injective ν) (hφ : Function.Injective φ) (vm vm' : CoreVM.VM) (hw : Refine.WF vm)
+    (h : Refine.RefinedStep ν φ vm vm') :
+    Refine.WF vm' ∧ ∃ ops : List IOp, ops.length ≤ 1 ∧ (∀ op ∈ ops, Refine.Covered op) ∧
+      Refine.absVM ν φ vm' = Refine.cs (ops.foldl applyOp (Refine.absVM ν φ vm)) :=
+  Refine.refinedStep_is_op ν φ hν hφ vm vm' hw h
+
+/-- PARTIAL (`corevm_lifetime_invariant` would quantify over ALL steps of `CoreVM.runToCompletion`; instance creation +
+    `_start_flow`, the new-action / `Start` / conflict-resolution sites, `StopFlow(flow_id=…)` and head movement in general are not
+    refined, and the action clauses do not transfer because `absVM` forgets the outgoing events): the hierarchy part of the lifetime
+    invariant — `FlowInv` (children form, restarted instances under their reference instance, main flow a root) and `LinkInv` (every
+    listening instance is listed by its parent) — holds for the abstraction along every sequence of refined CoreVM steps. -/
+theorem corevm_hierarchy_invariant_partial (hν : Function.Injective ν) (hφ : Function.Injective φ) (vm vm' : CoreVM.VM)
+    (hw : Refine.WF vm) (hf : FlowInv (Refine.absVM ν φ vm)) (hl : LinkInv (Refine.absVM ν φ vm))
+    (h : Refine.RefinedSteps ν φ vm vm') :
+    Refine.WF vm' ∧ FlowInv (Refine.absVM ν φ vm') ∧ LinkInv (Refine.absVM ν φ vm') :=
+  Refine.corevm_hierarchy_invariant_partial ν φ hν hφ vm vm' hw hf hl h
+
+/-- consequence, the parent-pointer form of clause (iv) on CoreVM states: after any sequence of refined steps, an instance that is
+    still listening and whose parent exists is in the parent's `child_flow_uids`, and its parent exists -/
+theorem corevm_parent_pointer_form_partial (hν : Function.Injective ν) (hφ : Function.Injective φ) (vm vm' : CoreVM.VM)
+    (hw : Refine.WF vm) (hf : FlowInv (Refine.absVM ν φ vm)) (hl : LinkInv (Refine.absVM ν φ vm))
+    (h : Refine.RefinedSteps ν φ vm vm') (c : Nat) (cf : Flow) (p : Nat)
+    (hc : (Refine.absVM ν φ vm').flows c = some cf) (hlis : cf.status.listening = true) (hp : cf.parent = some p) :
+    ∃ pf, (Refine.absVM ν φ vm').flows p = some pf ∧ c ∈ pf.children := by
+  obtain ⟨_, _, l'⟩ := Refine.corevm_hierarchy_invariant_partial ν φ hν hφ vm vm' hw hf hl h
+  obtain ⟨pf, hpf⟩ := l'.parentLive c cf p hc hp
+  exact ⟨pf, hpf, l'.linked c cf p pf hc hlis hp hpf⟩
+
+-- non-vacuity: `vmEx` satisfies all hypotheses and a refined step leaves it
+example : FlowInv (Refine.absVM ν φ Refine.vmEx) := Refine.vmEx_flowInv ν φ
+example : LinkInv (Refine.absVM ν φ Refine.vmEx) := Refine.vmEx_linkInv ν φ
+example : ∃ vm', Refine.RefinedSteps ν φ Refine.vmEx vm' ∧ Refine.RefinedStep ν φ Refine.vmEx vm' := Refine.vmEx_refined ν φ
+
+end T3
 
 end NemoVerif.C06
